@@ -77,23 +77,23 @@ type userAcc struct {
 	a    *acct
 }
 
-func (u *userAcc) GetCodeMetadata() []byte                          { return nil }
-func (u *userAcc) GetCodeHash() []byte                              { return u.a.code }
-func (u *userAcc) GetRootHash() []byte                              { return nil }
-func (u *userAcc) AccountDataHandler() vmcommon.AccountDataHandler  { return nil }
-func (u *userAcc) AddToBalance(_ *big.Int) error                    { return nil }
-func (u *userAcc) GetBalance() *big.Int                             { return big.NewInt(0).Set(u.a.balance) }
-func (u *userAcc) ClaimDeveloperRewards([]byte) (*big.Int, error)   { return big.NewInt(0), nil }
-func (u *userAcc) GetDeveloperReward() *big.Int                     { return big.NewInt(0) }
-func (u *userAcc) ChangeOwnerAddress([]byte, []byte) error          { return nil }
-func (u *userAcc) SetOwnerAddress([]byte)                           {}
-func (u *userAcc) GetOwnerAddress() []byte                          { return nil }
-func (u *userAcc) SetUserName([]byte)                               {}
-func (u *userAcc) GetUserName() []byte                              { return nil }
-func (u *userAcc) AddressBytes() []byte                             { return u.addr }
-func (u *userAcc) IncreaseNonce(uint64)                             {}
-func (u *userAcc) GetNonce() uint64                                 { return 0 }
-func (u *userAcc) IsInterfaceNil() bool                             { return u == nil }
+func (u *userAcc) GetCodeMetadata() []byte                         { return nil }
+func (u *userAcc) GetCodeHash() []byte                             { return u.a.code }
+func (u *userAcc) GetRootHash() []byte                             { return nil }
+func (u *userAcc) AccountDataHandler() vmcommon.AccountDataHandler { return nil }
+func (u *userAcc) AddToBalance(_ *big.Int) error                   { return nil }
+func (u *userAcc) GetBalance() *big.Int                            { return big.NewInt(0).Set(u.a.balance) }
+func (u *userAcc) ClaimDeveloperRewards([]byte) (*big.Int, error)  { return big.NewInt(0), nil }
+func (u *userAcc) GetDeveloperReward() *big.Int                    { return big.NewInt(0) }
+func (u *userAcc) ChangeOwnerAddress([]byte, []byte) error         { return nil }
+func (u *userAcc) SetOwnerAddress([]byte)                          {}
+func (u *userAcc) GetOwnerAddress() []byte                         { return nil }
+func (u *userAcc) SetUserName([]byte)                              {}
+func (u *userAcc) GetUserName() []byte                             { return nil }
+func (u *userAcc) AddressBytes() []byte                            { return u.addr }
+func (u *userAcc) IncreaseNonce(uint64)                            {}
+func (u *userAcc) GetNonce() uint64                                { return 0 }
+func (u *userAcc) IsInterfaceNil() bool                            { return u == nil }
 
 // vm.BlockchainHook
 func (ch *chain) GetStorageData(accountAddress []byte, index []byte) ([]byte, error) {
@@ -119,14 +119,14 @@ func (ch *chain) GetCode(account vmcommon.UserAccountHandler) []byte {
 	}
 	return nil
 }
-func (ch *chain) GetShardOfAddress([]byte) uint32      { return core.MetachainShardId }
-func (ch *chain) IsSmartContract(address []byte) bool  { return core.IsSmartContractAddress(address) }
-func (ch *chain) IsPayable([]byte) (bool, error)       { return true, nil }
-func (ch *chain) NumberOfShards() uint32               { return 1 }
-func (ch *chain) CurrentRandomSeed() []byte            { return append([]byte(nil), ch.seed...) }
-func (ch *chain) Close() error                         { return nil }
-func (ch *chain) GetSnapshot() int                     { return 0 }
-func (ch *chain) RevertToSnapshot(int) error           { return nil }
+func (ch *chain) GetShardOfAddress([]byte) uint32     { return core.MetachainShardId }
+func (ch *chain) IsSmartContract(address []byte) bool { return core.IsSmartContractAddress(address) }
+func (ch *chain) IsPayable([]byte) (bool, error)      { return true, nil }
+func (ch *chain) NumberOfShards() uint32              { return 1 }
+func (ch *chain) CurrentRandomSeed() []byte           { return append([]byte(nil), ch.seed...) }
+func (ch *chain) Close() error                        { return nil }
+func (ch *chain) GetSnapshot() int                    { return 0 }
+func (ch *chain) RevertToSnapshot(int) error          { return nil }
 
 // peer accounts (validator statistics stub)
 func (ch *chain) peerAccount(blsKey []byte) (vmcommon.AccountHandler, error) {
@@ -143,8 +143,7 @@ func (ch *chain) peerAccount(blsKey []byte) (vmcommon.AccountHandler, error) {
 	return pa, nil
 }
 
-// chanceStub: rating below 10 is a "bad rating" (chance lower than the chance of rating 0... is impossible by
-// definition, so bad rating never triggers unless rating knob says so): chance(0)=5, chance(r)=r for r in 1..4.
+// chanceStub: temp ratings 1..4 have a lower chance than rating 0 ("bad rating"); 0 and >=5 are good.
 type chanceStub struct{}
 
 func (chanceStub) GetChance(r uint32) uint32 {
@@ -157,11 +156,11 @@ func (chanceStub) IsInterfaceNil() bool { return false }
 
 type cryptoStub struct{}
 
-func (cryptoStub) Sha256(d []byte) ([]byte, error)                       { return d, nil }
-func (cryptoStub) Keccak256(d []byte) ([]byte, error)                    { return d, nil }
-func (cryptoStub) Ripemd160(d []byte) ([]byte, error)                    { return d, nil }
+func (cryptoStub) Sha256(d []byte) ([]byte, error)                           { return d, nil }
+func (cryptoStub) Keccak256(d []byte) ([]byte, error)                        { return d, nil }
+func (cryptoStub) Ripemd160(d []byte) ([]byte, error)                        { return d, nil }
 func (cryptoStub) Ecrecover(h, _ []byte, _ []byte, _ []byte) ([]byte, error) { return h, nil }
-func (cryptoStub) IsInterfaceNil() bool                                  { return false }
+func (cryptoStub) IsInterfaceNil() bool                                      { return false }
 
 type epochs struct {
 	cur      uint32
@@ -172,9 +171,9 @@ func (e *epochs) RegisterNotifyHandler(h core.EpochSubscriberHandler) {
 	e.handlers = append(e.handlers, h)
 	h.EpochConfirmed(e.cur, 0)
 }
-func (e *epochs) CurrentEpoch() uint32         { return e.cur }
+func (e *epochs) CurrentEpoch() uint32          { return e.cur }
 func (e *epochs) CheckEpoch(data.HeaderHandler) {}
-func (e *epochs) IsInterfaceNil() bool         { return e == nil }
+func (e *epochs) IsInterfaceNil() bool          { return e == nil }
 func (e *epochs) set(epoch uint32) {
 	e.cur = epoch
 	for _, h := range e.handlers {
@@ -194,25 +193,27 @@ func (n nodesCfg) IsInterfaceNil() bool                   { return false }
 
 type envCfg struct {
 	nodePrice, minStake, unJail, minDeposit, minDelegation, baseIssue int64
-	unBondNonces                                                    uint64
-	unBondEpochs                                                    uint32
-	maxNodes, minNodes                                              uint64
-	minFee, maxFee                                                  uint64
-	epochs                                                          config.EnableEpochs
-	gas                                                             map[string]uint64 // overrides of MetaChainSystemSCsCost entries
+	unBondNonces                                                      uint64
+	unBondEpochs                                                      uint32
+	maxNodes, minNodes                                                uint64
+	minFee, maxFee                                                    uint64
+	epochs                                                            config.EnableEpochs
+	gas                                                               map[string]uint64 // overrides of MetaChainSystemSCsCost entries
 }
 
 type env struct {
-	c     *simkit.Ctx
-	ch    *chain
-	ep    *epochs
-	eei   vm.ContextHandler // the real vmContext
-	spy   *spy
-	cont  vm.SystemSCContainer
-	svm   vmcommon.VMExecutionHandler
-	marsh marshal.Marshalizer
-	cfg   envCfg
+	c       *simkit.Ctx
+	ch      *chain
+	ep      *epochs
+	eei     vm.ContextHandler // the real vmContext
+	spy     *spy
+	cont    vm.SystemSCContainer
+	svm     vmcommon.VMExecutionHandler
+	marsh   marshal.Marshalizer
+	cfg     envCfg
 	mgrInit bool
+	// overdraftProbe: address whose negative balance is counted (the delegation contract of a deleg run)
+	overdraftProbe []byte
 }
 
 var hexConv, _ = pubkeyConverter.NewHexPubkeyConverter(32)
@@ -384,7 +385,13 @@ func (e *env) call(caller, dest []byte, fn string, args [][]byte, value *big.Int
 	for _, a := range args {
 		in.Arguments = append(in.Arguments, append(make([]byte, 0, len(a)), a...))
 	}
-	e.spy.beginTx(dest, fn)
+	return e.callIn(in, apply)
+}
+
+// callIn runs a prepared input (the caller keeps the argument buffers).
+func (e *env) callIn(in *vmcommon.ContractCallInput, apply bool) *txRes {
+	caller, value := append([]byte(nil), in.CallerAddr...), big.NewInt(0).Set(in.CallValue)
+	e.spy.beginTx(in.RecipientAddr, in.Function)
 	out, err := e.svm.RunSmartContractCall(in)
 	res := &txRes{out: out, rc: vmcommon.ExecutionFailed}
 	if err != nil || out == nil {
@@ -432,8 +439,8 @@ func (e *env) apply(out *vmcommon.VMOutput) {
 		}
 		if oa.BalanceDelta != nil {
 			ac.balance.Add(ac.balance, oa.BalanceDelta)
-			if ac.balance.Sign() < 0 && core.IsSmartContractAddress([]byte(a)) {
-				e.c.Probe("contract_overdraft")
+			if ac.balance.Sign() < 0 && e.overdraftProbe != nil && bytes.Equal([]byte(a), e.overdraftProbe) {
+				e.c.Probe("delegation_contract_overdraft")
 			}
 		}
 		if len(oa.Code) > 0 {
